@@ -78,8 +78,28 @@ func (w *world) tick() bool {
 func run(c *rig.Ctx) {
 	c.Require("cycles", "cycles_off", "first_line_cycles", "switch_offs", "switch_ons", "redundant_writes", "cells_visited")
 	var seen [lcdref.Lines][lcdref.LineLen]bool
+	worlds := 0
 	newWorld := func() *world {
 		m := rig.MustNew(rig.BlankROM(0, 0, 0), rig.Opts{})
+		// OAM contents must not matter for the timing: empty, random, or all objects on one line
+		worlds++
+		or := rig.NewRng(c.Seed, 0xc13, uint64(worlds), uint64(c.Shard))
+		switch worlds % 3 {
+		case 1:
+			for k := 0; k < 160; k++ {
+				m.OAM.XPoke(k, or.U8())
+			}
+			c.Count("worlds_with_random_oam", 1)
+		case 2:
+			line := uint8(or.Intn(144))
+			for k := 0; k < 40; k++ {
+				m.OAM.XPoke(k*4, line+16-uint8(or.Intn(8)))
+				m.OAM.XPoke(k*4+1, uint8(8+or.Intn(160)))
+				m.OAM.XPoke(k*4+2, or.U8())
+				m.OAM.XPoke(k*4+3, or.U8())
+			}
+			c.Count("worlds_with_crowded_line", 1)
+		}
 		w := &world{c: c, m: m, seen: &seen}
 		w.ref.On = true // power-on state: LCDC = 91
 		w.ref.N = 0
